@@ -1,32 +1,28 @@
 #!/bin/bash
-# tools/seedtest.sh <ID> <mN> [tier]   -- confirm a seeded change and run the property's check against it
-# 1. in a scratch worktree of /repo HEAD: apply, run the pinned suite (must be 468 passed), run the demo
-#    with and without the change;  2. apply to /repo, run ./vf check, revert.
+# tools/seedtest.sh <ID> <mN> [tier]   -- confirm a seeded change and run the property's check against it.
+# Everything happens in a scratch worktree of /repo HEAD under /var/tmp (never in /repo itself, so that
+# concurrent work on /repo is not disturbed): apply the patch, run the pinned suite (must be 468 passed),
+# run the demo with and without the change, then run ./vf check with VERIF_REPO pointing at the worktree.
 ID=$1; M=$2; TIER=${3:-quick}
 SRC=${SEED_SRC:-/tmp/seed-out}/$ID/$M
 [ -d "$SRC" ] || SRC=/verif/seeded/$ID-$M
-WT=/var/tmp/seedwt-$ID-$M
+WT=/var/tmp/seedwt-$ID-$M-$$
 export PYTHONDONTWRITEBYTECODE=1
-git -C /repo worktree remove --force $WT >/dev/null 2>&1; rm -rf $WT
 git -C /repo worktree add -q --detach $WT HEAD || exit 9
+trap 'git -C /repo worktree remove --force $WT >/dev/null 2>&1; rm -rf $WT' EXIT
 DEMO=$(ls $SRC/demo*.py | head -1)
 clean=$(cd $WT && REPO_DIR=$WT timeout 300 /venv/bin/python $DEMO >/dev/null 2>&1; echo $?)
 if ! git -C $WT apply $SRC/patch.diff 2>/dev/null; then
-  if ! (cd $WT && patch -p1 -s --fuzz=3 < $SRC/patch.diff >/dev/null 2>&1); then echo "PATCH-DOES-NOT-APPLY"; git -C /repo worktree remove --force $WT; exit 8; fi
+  if ! (cd $WT && patch -p1 -s --fuzz=3 < $SRC/patch.diff >/dev/null 2>&1); then echo "PATCH-DOES-NOT-APPLY"; exit 8; fi
 fi
 suite=$(cd $WT && /venv/bin/python -m pytest -q -p no:cacheprovider --timeout=900 --continue-on-collection-errors 2>&1 | tail -1)
 mut=$(cd $WT && REPO_DIR=$WT timeout 300 /venv/bin/python $DEMO >/dev/null 2>&1; echo $?)
-(cd $WT && git diff) > /var/tmp/seed-$ID-$M.diff
-git -C /repo worktree remove --force $WT; rm -rf $WT
 echo "seed $ID/$M: demo clean-exit=$clean mutated-exit=$mut suite='$suite'"
-# run the check against /repo with the change applied
-cd /repo && git apply /var/tmp/seed-$ID-$M.diff || { echo "cannot apply to /repo"; exit 7; }
 cd /verif
 for id in ${CHECK_IDS:-$ID}; do
-  out=$(timeout 1500 ./vf check $id --tier $TIER --quiet 2>&1)
+  out=$(VERIF_REPO=$WT timeout 1500 ./vf check $id --tier $TIER --quiet 2>&1)
+  rc=$?
   nv=$(echo "$out" | grep -c '^VIOLATION')
-  echo "  check $id ($TIER): $nv VIOLATION lines; $(echo "$out" | tail -1)"
+  echo "  check $id ($TIER): exit=$rc, $nv VIOLATION lines; $(echo "$out" | tail -1 | cut -c1-300)"
   echo "$out" | grep '^VIOLATION' | head -3
 done
-git -C /repo checkout -- . ; rm -f /var/tmp/seed-$ID-$M.diff
-git -C /repo status --short | head -3
